@@ -238,6 +238,9 @@ pub fn c17(thorough: bool, seed: u64, _threads: usize) -> Json {
     }
     let missing = base.join("does-not-exist").to_string_lossy().to_string();
     let cwd = std::env::current_dir().unwrap();
+    // an explicit value equal to the default (current directory) must still count as explicit
+    let mut dirs = dirs;
+    dirs.push(cwd.to_string_lossy().to_string());
     let s = |v: &[&str]| v.iter().map(|x| x.to_string()).collect::<Vec<_>>();
     let settings: Vec<Setting> = vec![
         Setting { spellings: &["-i", "--ip-address"], values: s(&["127.0.0.1", "0.0.0.0", "::1", "192.168.1.5"]) },
